@@ -881,6 +881,7 @@ pub fn check_beacons(sc: &Scenario, rv: &RefVerdict, info: &RefInfo, run: &RealR
     let mut starts: BTreeMap<(usize, usize), Vec<u64>> = BTreeMap::new();
     let mut ends: BTreeMap<(usize, usize), Vec<u64>> = BTreeMap::new();
     let mut obs_seen: BTreeMap<(Word, Word), usize> = BTreeMap::new();
+    let ref_started: BTreeSet<(Word, Word)> = info.ref_beacons.iter().filter(|b| b.kind == B_START).map(|b| (b.tag, b.node)).collect();
     for b in &run.beacons {
         let Some(&si) = tag_to_sol.get(&b.tag) else { continue };
         let pi = sc.sol_pred[si];
@@ -894,6 +895,17 @@ pub fn check_beacons(sc: &Scenario, rv: &RefVerdict, info: &RefInfo, run: &RealR
                     if normalise_obs(exp) != normalise_obs(&b.payload) {
                         issue_at(out, "C03", "observed-values", format!("solution tag {} node id {} read #{k}: observed {:?}, overlay says {exp:?}", b.tag, b.node, b.payload), b.seq);
                     }
+                } else if ref_started.contains(&(b.tag, b.node)) && !sc.pre.poison.is_empty() {
+                    // the reference evaluated this node but never got as far as announcing this read: its read failed
+                    // (injected state error). The program under the real checker got a value instead of the error.
+                    let post = info.deferred.get(si).is_some_and(|d| d.contains(&ni));
+                    issue_at(
+                        out,
+                        if post { "C03" } else { "C11" },
+                        "read-should-have-failed",
+                        format!("solution tag {} node id {} read #{k} delivered {:?} although the state fails this read in the reference (a state error was swallowed or replaced by a value)", b.tag, b.node, tail(&b.payload)),
+                        b.seq,
+                    );
                 }
                 *k += 1;
             }
